@@ -2,7 +2,7 @@ SPECIFICATION LSpec
 CONSTANTS
   Keys = {"a", "b", "c"}
   Caps = {1, 2, 3}
-  MaxIncr = 6
+  MaxIncr = 7
   MaxCtl = 2
 INVARIANTS StructOK LBounded LExactSinceAdmission LEvictsMinimum LLatchExact AbsInv
 PROPERTIES AbsSpec
